@@ -430,6 +430,13 @@ func (g *Gen) genContext(p *Prog, steps int) {
 	}
 	for s := 0; s < steps; s++ {
 		switch k := g.intn(24); {
+		case g.chance(0.06):
+			// factory with a possible NaN source: must latch like the operators (first error wins), never panic
+			b := g.f64bits()
+			if g.chance(0.35) {
+				b = 0x7ff8000000000000 | uint64(g.intn(2))<<63 | uint64(g.intn(1000))
+			}
+			p.Exec(fmt.Sprintf("cnewf64 %d %x", recv(), b))
 		case k < 4:
 			x, y := pick(), pick()
 			p.Exec(fmt.Sprintf("cadd %d %d %d", recv(x, y), x, y))
